@@ -333,8 +333,10 @@ func (w *ntWorld) runWord(b Beh, tr *Tracer) error {
 				for k := 0; k < 2000 && !w.sessionGone(cs.local); k++ {
 					time.Sleep(200 * time.Microsecond)
 				}
+				// whoever reached the gate (the notifying goroutine, or the connection's own goroutine writing a notification
+				// that was held back) is released now
+				close(g.release)
 				if parked {
-					close(g.release)
 					panicked = <-done
 				}
 				if target != nil {
